@@ -4,9 +4,11 @@ import (
 	"bytes"
 	"encoding/base64"
 	"encoding/json"
+	"errors"
 	"fmt"
 	"os"
 	"path/filepath"
+	"syscall"
 	"unicode/utf8"
 
 	"github.com/modernizing/coca/cmd"
@@ -286,6 +288,9 @@ func dispatch(op Op) (interface{}, error) {
 		snap := map[string]ent{}
 		err := filepath.Walk(a.Dir, func(p string, info os.FileInfo, err error) error {
 			if err != nil {
+				if errors.Is(err, syscall.ENAMETOOLONG) {
+					return nil // the levels of a deliberately over-deep noise directory: no files there
+				}
 				return err
 			}
 			if info.IsDir() {
@@ -361,9 +366,33 @@ func dispatch(op Op) (interface{}, error) {
 		var a struct {
 			Args []string `json:"args"`
 			Read []string `json:"read"` // files to return right after the command (reports are overwritten by later commands)
+			// Fifo: before the command runs, Path is created as a named pipe into which a writer
+			// delivers the bytes of From (what `-d <(zcat deps.json.gz)` or `-d /dev/stdin` give the command)
+			Fifo *struct {
+				Path string `json:"path"`
+				From string `json:"from"`
+			} `json:"fifo"`
 		}
 		if err := json.Unmarshal(op.Args, &a); err != nil {
 			return nil, err
+		}
+		if a.Fifo != nil {
+			data, err := os.ReadFile(a.Fifo.From)
+			if err != nil {
+				return nil, err
+			}
+			os.Remove(a.Fifo.Path)
+			if err := syscall.Mkfifo(a.Fifo.Path, 0644); err != nil {
+				return nil, err
+			}
+			go func() {
+				w, err := os.OpenFile(a.Fifo.Path, os.O_WRONLY, 0)
+				if err != nil {
+					return
+				}
+				w.Write(data)
+				w.Close()
+			}()
 		}
 		var buf bytes.Buffer
 		root := cmd.NewRootCmd(&buf)
